@@ -37,10 +37,12 @@ Definition path_append (p n : bytes) : bytes :=
   | _ => if ends_with_sep p then p ++ n else p ++ 47 :: n
   end.
 
-(* DirectoryContentsTask::getContents only: a symbolic link that resolves to an ancestor of the directory being
-   listed is left out ("so we don't get stuck in a loop").  [anc path resolved]: the ancestor test.
-   Repaired code: pathIsPrefixedByPath(path, resolvedPath) (whole components, Path/PathPrefix.v);
-   before the repair: path.startswith(resolvedPath) (a STRING prefix). *)
+(* Both listings (getContents, getFilteredContents) leave out a symbolic link that resolves to the directory being listed
+   or to one of its ancestors ("following them would never end"): AncestorLinkFilter.
+   [anc dir resolved]: the ancestor test, [dir] the RESOLVED path of the directory (real_path of it).
+   Repaired code: pathIsPrefixedByPath(resolved directory, resolved link) - whole components (Path/PathPrefix.v) - in both
+   listings.  Before the repairs: a STRING prefix test (9d17fc1), against the directory path as spelled in the key and
+   in the unfiltered listing only (d863e96). *)
 Definition anc_repaired (p rp : bytes) : bool := pip p rp.
 Definition anc_unrepaired (p rp : bytes) : bool := is_prefix rp p.
 
@@ -58,34 +60,36 @@ Fixpoint resolves (t : tree) : bool :=
   | _ => true
   end.
 
-(* [skip]: true for the unfiltered listing (getContents: directory_iterator(path, ec, follow_symlinks = false), with
-   the ancestor test), false for getFilteredContents (no such test there).
+(* [p]: the resolved path of what is observed.
+   [skip]: the unfiltered listing (getContents: directory_iterator(path, ec, follow_symlinks = false)); false: the
+   filtered one.  [ancf]: the ancestor test is applied in the filtered listing too (repaired code).
    [trunc] (before the repair of getFilteredContents): it iterated with follow_symlinks = true and "it != end && !ec";
    the iterator stats each entry as it reaches it, so the first entry whose stat fails (a dangling link) ended the loop
    before it was pushed: that entry and everything after it in directory order was not listed. *)
-Fixpoint observe_gen (anc : bytes -> bytes -> bool) (trunc : bool) (skip : bool) (p : bytes) (t : tree) : vtree :=
+Fixpoint observe_gen (anc : bytes -> bytes -> bool) (ancf trunc : bool) (skip : bool) (p : bytes) (t : tree) : vtree :=
   match t with
   | Missing => VMissing
   | File i => VNode i []
-  | Link _ _ t' => observe_gen anc trunc skip p t'
+  | Link _ rp t' => observe_gen anc ancf trunc skip (match rp with Some r => r | None => p end) t'
   | Dir i cs =>
     VNode i ((fix go (l : list (bytes * tree)) : list (bytes * vtree) :=
                 match l with
                 | [] => []
                 | (n, c) :: l' =>
-                  if skip then (if dropped_link anc p c then go l'
-                                else (n, observe_gen anc trunc skip (path_append p n) c) :: go l')
-                  else if trunc && negb (resolves c) then []
-                  else (n, observe_gen anc trunc skip (path_append p n) c) :: go l'
+                  if (skip || ancf) && dropped_link anc p c then go l'
+                  else if negb skip && trunc && negb (resolves c) then []
+                  else (n, observe_gen anc ancf trunc skip (path_append p n) c) :: go l'
                 end) cs)
   end.
 
-(* the code as it is (getFilteredContents repaired: follow_symlinks = false, no truncation) *)
-Definition observe := observe_gen anc_repaired false.
-(* before the repair of the ancestor test *)
-Definition observe_unrepaired := observe_gen anc_unrepaired false.
-(* before the repair of getFilteredContents: the listing ends at the first entry whose stat fails *)
-Definition observe_truncating := observe_gen anc_repaired true.
+(* the code as it is *)
+Definition observe := observe_gen anc_repaired true false.
+(* before 9d17fc1: string-prefix ancestor test, unfiltered listing only *)
+Definition observe_unrepaired := observe_gen anc_unrepaired false false.
+(* before e9065fb: the filtered listing ends at the first entry whose stat fails (and has no ancestor test) *)
+Definition observe_truncating := observe_gen anc_repaired false true.
+(* before d863e96: no ancestor test in the filtered listing (and the unfiltered one was given the path as spelled) *)
+Definition observe_unprotected := observe_gen anc_repaired false false.
 
 (* ------------------------------------------------------------------ ordering of a listing *)
 
